@@ -103,6 +103,11 @@ Lemma C15_def_name_span_alias_refuted :
   /\ marks_on_line content 9 11 [100; 98] = false.
 Proof. exact def_name_span_alias_refuted. Qed.
 
+Lemma C15_def_name_search_from_keyword_refuted :
+  let content := [100; 101; 102; 32; 101; 40; 102; 41; 58] in
+  find_function_name_position content 1 [101] = Ok (4, 5) /\ find [101] content = Some 1.
+Proof. exact def_name_search_from_keyword_refuted. Qed.
+
 (** non-vacuity: an indented async definition line *)
 Example C15_example :
   let lc := [32; 32; 32; 32] ++ [97; 115; 121; 110; 99; 32] ++ def_sp ++ [32] ++ [105; 110; 110; 101; 114] ++ [40; 41; 58] in   (*     async def  inner(): *)
